@@ -184,6 +184,10 @@ var c01Bundles = map[string]c01Bundle{
 	"base":          {tag: "base", attrs: `href="http://[bad"`, void: true},
 	"meta-link":     {tag: "link", attrs: `rel="stylesheet" href="missing.css"`, void: true},
 	"style-attr":    {tag: "div", attrs: `style="color:red;;;{}width:10px;@x;height:"`},
+	// a footnote whose text depends on counter(pages): its height changes the number of pages, which changes its text (the
+	// pagination rounds of layoutDocument do not converge and must be cut off)
+	"osc-pages": {tag: "span", decl: "float:footnote", rules: `@counter-style long{system:cyclic;symbols:"xxxx xxxx xxxx xxxx xxxx xxxx xxxx xxxx xxxx xxxx xxxx xxxx xxxx xxxx" "y"}%s::after{content:counter(pages,long)}`},
+	"pages-text": {tag: "div", rules: `%s::after{content:counter(pages) " " counter(page) " " target-counter("#t",page)}`},
 }
 
 // page geometries (the @page rule) and the content box they leave
